@@ -95,6 +95,17 @@ def gen(ctx):
             inner = {"t": "func", "name": f, "args": [x]}
             pool.append({"t": "infix", "l": inner, "op": "==", "r": {"t": "int", "v": 1}})
             pool.append({"t": "infix", "l": {"t": "int", "v": 1}, "op": "<", "r": inner})
+    # pattern literals that Python's `re` refuses (or that are valid I-Regexp only): a string literal is a well-typed
+    # argument whatever it holds - RFC 9535 makes the function false for it at evaluation time - so the query compiles
+    odd_patterns = ["[", "(", ")", "a{2,1}", "+", "*a", "a**", "(?P<", "\\", "\\p{Ll}", "[a-", "(?", "a{99999999999}", "[[:alpha:]]", "\\1", "x", ""]
+    for f in ("match", "search"):
+        for pat in odd_patterns:
+            for subj in (SING[0], SING[2], {"t": "str", "v": "abc"}):
+                call = {"t": "func", "name": f, "args": [subj, {"t": "str", "v": pat}]}
+                pool.append(call)
+                pool.append({"t": "not", "e": call})
+                pool.append({"t": "infix", "l": call, "op": "||", "r": SING[0]})
+                pool.append({"t": "infix", "l": {"t": "func", "name": "count", "args": [{"t": "self", "q": [{"g": "child", "sels": [{"s": "filter", "e": call}]}]}]}, "op": "==", "r": {"t": "int", "v": 0}})
     ctx.exhaustive_spaces.append(f"all match/search calls over {len(arg_pool)} x {len(arg_pool)} arguments (atoms and nested calls), bare and under &&; all length/count/value calls over {len(arg_pool)} arguments as comparison operands")
     names = ["a", "b", "c", "k"]
     for _ in range(1500 if ctx.tier == "quick" else 30000):
